@@ -160,6 +160,7 @@ class JobRec:
         self.excused = False
         self.loss_base = 0
         self.loss_marks_total = 0
+        self.reaped_later = False
 
     def owners_unfinished(self):
         return {p['ack_proc'][0] for p in self.parts.values()
@@ -1447,7 +1448,35 @@ class Sim:
             # quiet for longer than every grace period / limit in play
             if self.clock.t - quiet_since > 13.0:
                 break
+        self.late_detection_round()
         self.final_checks()
+
+    def late_detection_round(self):
+        """Jobs whose owner was reaped before its ACK was processed are only
+        looked at again when some other worker is reaped (known finding
+        KF-ack-after-reap).  Give the pool that occasion once, so that "late
+        and with the wrong status" (known) can be told from "never" (not
+        known): one more worker exit, two supervision passes past every
+        grace period."""
+        if self.limiter_raised or self.n_viol > 5:
+            return
+        stuck = [j for j in self.jobs.values()
+                 if j.ack_after_reap and not j.discarded and not j.excused
+                 and not self.is_resolved(j)]
+        if not stuck:
+            return
+        idle = [w for w in self.workers if w.alive and w.state == 'idle' and not w.termed]
+        if not idle:
+            return
+        self.stat('late_detection_rounds')
+        self.w_die(idle[0], -9)
+        self.p_supervise()
+        for j in stuck:
+            j.reaped_later = True
+        self.p_advance(11.0)
+        self.p_supervise()
+        self.p_advance(0.8)
+        self.p_supervise()
 
     def final_checks(self):
         pool = self.pool
@@ -1465,7 +1494,7 @@ class Sim:
                       'job_never_resolved',
                       {'job_kind': j.kind, 'send_failed': bool(j.send_failed),
                        'owner_died': owners_dead, 'ack_after_reap': j.ack_after_reap,
-                       'multi_loss': self.multi_loss(j)},
+                       'reaped_later': j.reaped_later, 'multi_loss': self.multi_loss(j)},
                       job=j.jid, parts=j.parts, yielded=j.yielded[-5:])
         # imap consumers: what was yielded must be the scripted outcomes
         for j in self.jobs.values():
